@@ -135,6 +135,20 @@ HARNESSES = (
       quick=[], thorough=[], scenarios=sched(3, 1, 1, 1, nestmasks=(0, 1), drains=(0,), cancel=(2, 4, 6, 8), stolen=(255,))),
 ])
 
+MANIFEST = dict(
+  level_text='Bounded symbolic execution (clang-14 IR -> tools/ir2c.py -> cbmc) of the real templates. Sort: the kernels of parallel_sort.h called '
+             'white-box on arrays of <= 8 (thorough 12) elements for every strict weak order (pivot selection, partition/split geometry and '
+             'permutation, pre-sortedness probe incl. chunk boundaries and the serial/parallel hand-over pair; pseudo_median_of_nine indices for every '
+             '64-bit size). Reduce / deterministic reduce / scan: the real task classes (start_reduce, reduction_tree_node, fold_tree, all four '
+             'partitioners; start_deterministic_reduce; start_scan, finish_scan, sum_node, final_sum) run by a sequential task-bag model of the '
+             'scheduler with a free-monoid body, so the result records the exact operand order; one query per concrete task order (owner-like / '
+             'thief-like takes, tasks running while another task is inside the user body, stolen flags, cancellation point) on ranges of <= 12 elements.',
+  level_note='Task-order enumeration is explicit (listed per harness in evidence), not exhaustive; tasks are atomic apart from nested runs inside the '
+             'user body; data races between truly overlapping tasks, sizes around the 500-element cut-offs, std::sort leaves and floating-point '
+             'bit-identity on real data are outside. A real defect outside the statement was found on the way (parallel_scan leaks on cancellation, '
+             'props/C06/repro_scan_cancel_leak.cpp, registered under C03). Trusted: clang-14 IR, tools/ir2c.py (sort unit validated per run by the '
+             'selftest differential), cbmc.',
+)
 OUTSIDE = [
   'whole parallel_sort on arrays >= 500 elements (cut-offs grainsize/min_parallel_size): only the kernels are run, composition (recursion on the two subranges, std::sort on leaves) is a paper argument',
   'std::sort on leaf ranges (libstdc++)',
